@@ -834,6 +834,10 @@ def get_unique_label(label: str, labels: dict) -> tp.Tuple[str, dict]:
 
 
 def replace_in_expr(expr: Expr, replacements: dict):
+    # exact structural replacement of the parsed sub-expressions first: `subs` would also rewrite related terms
+    # (replacing 1/k by a symbol P turns every other k into P**(-1), so `sin(k)/k` became `P*sin(P**(-1))` and the
+    # call sin(k) was never replaced by its operation node)
+    expr = expr.xreplace(replacements)
     expr = expr.subs(replacements, simultaneous=True)
     for arg_old in replacements:
         if expr.count(arg_old):
